@@ -44,7 +44,7 @@ def run(chk, replay=None):
         (("real", "lc_pkpi", "helicity"), ["axis"]),
         (("real", "jpsi_gpp_f2", "canonical-helicity"), ["none"]),
         # one topology whose chains are symmetrised over the two pi0: (01)2 + (02)1 summed coherently
-        (("real", "jpsi_gpp_omega_all", "helicity"), ["none"]),
+        (("real", "jpsi_gpp_omega_all", "helicity"), ["none", "none+ff"]),   # "+ff": production form factor and Breit-Wigners assigned by name
     ]
     if tier == "thorough":
         cases += [
@@ -99,7 +99,7 @@ def run(chk, replay=None):
         ntop = observe.n_topologies(reaction)
         for k, Irot in enumerate(res["Irot"]):
             q, nan = observe.reldiff_q(res["I"], Irot)
-            records.append({"kind": "rot", "id": f"{label}|{al}|rot{k}", "outer": outer, "ntop": ntop, "aligned": int(al != "none"), "alignment": al, "reldiff_q": q, "nan": nan})
+            records.append({"kind": "rot", "id": f"{label}|{al}|rot{k}", "outer": outer, "ntop": ntop, "aligned": int(not al.startswith("none")), "alignment": al, "reldiff_q": q, "nan": nan})
             chk.count(1)
         chk.nontrivial((label, al))
     # DPD alignment as a formula: the aligned intensity against the decomposition assembled independently (observe._dpd_job)
